@@ -1,7 +1,8 @@
 (* C07 — accepted decryption factors yield the true plaintext (verifiable decryption). *)
 From Coq Require Import ZArith Znumtheory List.
 From Strand Require Import Model.Outcome Model.Codec Model.Backend Model.Zkp Model.Keymaker
-  Proofs.Laws Proofs.SigmaP Proofs.Corollaries Proofs.KeymakerP.
+  Proofs.Laws Proofs.SigmaP Proofs.Corollaries Proofs.KeymakerP
+  Base.ZUtil Base.ZpField Base.Edwards Model.Ristretto Model.RistrettoFast Model.RBackend Proofs.RistrettoGroup.
 Import ListNotations.
 Open Scope Z_scope.
 
@@ -73,3 +74,23 @@ Theorem C07_one_bad_pair_rejects : forall (B : Backend) pk cs decs proofs label 
   verify_decryption_factors B pk cs decs proofs label = Ok false.
 Proof. exact verify_decryption_factors_one_bad. Qed.
 Print Assumptions C07_one_bad_pair_rejects.
+
+(* ristretto backend record, no group-law hypothesis (Proofs/RistrettoGroup.v): the factor and proof released by the key
+   holder verify against the holder's public key and the ciphertext, and the plaintext returned is mhr - [sk]gr, for
+   every key, nonce, label and every ciphertext whose second component has order dividing l — which every honestly
+   made ciphertext has (gr = [r]B, second statement) *)
+Theorem C07_ristretto_decrypt_and_prove : forall (K : Kernel) (PM : PMul) sk (c : ctext (RB K PM)) label r,
+  valid (mhr c) -> valid (gr c) ->
+  Edwards.nmul Fp f0 f1 fa fm fs fd dF Ln (aff (gr c)) = Edwards.eid Fp f0 f1 -> 0 <= sk -> 0 <= r ->
+  exists d pf, decrypt_and_prove (RB K PM) sk (pk_of_sk (RB K PM) sk) c label r = Ok (d, pf) /\
+    verify_decryption (RB K PM) (pk_of_sk (RB K PM) sk) (decryption_factor (RB K PM) sk c) (mhr c) (gr c) pf label = true /\
+    valid d /\
+    aff d = Edwards.eadd Fp f1 fa fm fs fd dF (aff (mhr c))
+              (Edwards.eneg Fp fo (Edwards.nmul Fp f0 f1 fa fm fs fd dF (Z.to_nat sk) (aff (gr c)))).
+Proof. exact rb_decrypt_and_prove_complete. Qed.
+Print Assumptions C07_ristretto_decrypt_and_prove.
+
+Theorem C07_ristretto_honest_ciphertexts_qualify : forall (K : Kernel) (PM : PMul) pk m r,
+  Edwards.nmul Fp f0 f1 fa fm fs fd dF Ln (aff (gr (encrypt_with_randomness (RB K PM) pk m r))) = Edwards.eid Fp f0 f1.
+Proof. exact rb_gr_order. Qed.
+Print Assumptions C07_ristretto_honest_ciphertexts_qualify.
